@@ -61,7 +61,7 @@ func applicable(dir, constraint int) bool {
 func predMet(c caseSpec) bool {
 	failed := c.beh != bRight && c.beh != bWrong && c.beh != bNothing
 	switch c.pred {
-	case pAny, pPrefixMet, pMatchMet:
+	case pAny, pPrefixMet, pMatchMet, pPrefixEmpty, pSuffixEmpty:
 		return failed
 	case pExactMet, pSuffixMet:
 		// built from the complete scripted error text; a panic's text continues with a
@@ -97,6 +97,10 @@ func unsatisfied(dir int, c caseSpec) bool {
 			return true
 		}
 		return resultNonEmpty(dir, c)
+	}
+	if c.nilValue && dir == dirUnmarshal {
+		// no decoded value can equal a nil pointer
+		return true
 	}
 	return c.beh != bRight
 }
@@ -154,6 +158,18 @@ func predicate(c caseSpec, i int) test.AssertErrorFunc {
 		return test.ErrorMatch("^zzz$")
 	case pMatchNear:
 		return test.ErrorMatch("^" + regexp.QuoteMeta(short) + "$")
+	case pExactLonger:
+		return test.Error(head + "x")
+	case pExactEmpty:
+		return test.Error("")
+	case pPrefixLonger:
+		return test.ErrorHasPrefix(head + "x")
+	case pPrefixEmpty:
+		return test.ErrorHasPrefix("")
+	case pSuffixLonger:
+		return test.ErrorHasSuffix("x" + head)
+	case pSuffixEmpty:
+		return test.ErrorHasSuffix("")
 	}
 	return test.ErrorMatch("(")
 }
@@ -252,7 +268,7 @@ func execList(ls listSpec, keepMsgs bool) (l *listRun, escaped interface{}) {
 			runEnc(l, ls, func(i int, c caseSpec) V { return V{i + 1, c.payload} })
 		case shP:
 			runEnc(l, ls, func(i int, c caseSpec) *P {
-				if c.beh == bNilReceiver {
+				if c.beh == bNilReceiver || (c.nilValue && ls.dir == dirUnmarshal) {
 					return nil
 				}
 				return &P{i + 1, c.payload}
@@ -347,6 +363,9 @@ func normalise(ls *listSpec) {
 		}
 		if c.beh == bPanicAfterSet && ls.dir == dirMarshal {
 			c.beh = bPanicString
+		}
+		if c.nilValue && (ls.shape != shP || ls.dir != dirUnmarshal) {
+			c.nilValue = false
 		}
 		if c.isPanic() && (c.pred == pSuffixMet || c.pred == pExactMet) {
 			// the complete text of a recovered panic includes a stack trace
